@@ -43,6 +43,7 @@ struct Maximisers {
     FB::MaxPlus mp;
     FB::ReusingIterativeLocalSearch rils;
     std::unique_ptr<FB::LocalSearch::Graph> lsGraph;   // shared by LS / MaxPlus / RILS (same Graph type)
+    std::unique_ptr<FB::LocalSearch::Graph> lsGraphQF; // the same, built and updated by the QFunction overloads
     FB::MultiObjectiveVariableElimination move;
     FB::UCVE ucve;
     Maximisers(unsigned mpIters, double p1, double p2, unsigned trials, bool force)
@@ -55,9 +56,24 @@ static void run_ve(Maximisers & M, int call, const F::Action & A, const Rules & 
     Line l; l << "C13" << "ve" << call; l.nats(A); putRules(l, rules); l << "|"; l.nats(a) << v; l.emit();
 }
 
+// the bookkeeping of FactorGraph::getFactor as the maximisers see it: node order, and per agent the neighbour list
+// (`getVariables(a)`, built by incremental sorted unions) and the adjacent factors in `getFactors(a)` order
+static void put_graph(const FB::LocalSearch::Graph & g, int call, const F::Action & A) {
+    Line l; l << "C13" << "lsgraph" << call; l.nats(A); l << (size_t)g.factorSize();
+    for (auto f = g.begin(); f != g.end(); ++f) l.nats(f->getVariables());
+    l << "|";
+    for (size_t a = 0; a < A.size(); ++a) {
+        l.nats(g.getVariables(a));
+        l << (size_t)g.getFactors(a).size();
+        for (auto it : g.getFactors(a)) l.nats(it->getVariables());
+    }
+    l.emit();
+}
+
 static void run_approx(Maximisers & M, int call, const F::Action & A, const Rules & rules) {
     auto & g = *M.lsGraph;
     FB::UpdateGraph<FB::LocalSearch>()(g, rules, A);
+    if (call == 0) put_graph(g, call, A);
     {
         auto [a, v] = M.ls(A, g);
         Line l; l << "C13" << "ls" << call; l.nats(A); putRules(l, rules); l << "|"; l.nats(a) << v; l.emit();
@@ -73,6 +89,49 @@ static void run_approx(Maximisers & M, int call, const F::Action & A, const Rule
     {
         auto [a, v] = M.rils(A, g);
         Line l; l << "C13" << "rils" << call; l.nats(A); putRules(l, rules); l << "|"; l.nats(a) << v; l.emit();
+    }
+}
+
+// ---- QFunction overloads of GraphUtils.hpp (dense bases): UpdateGraphImpl<VE, QFunction>, Make/UpdateGraphImpl<LocalSearch, QFunction>
+static void putQF(Line & l, const FB::QFunction & qf) {
+    l << (size_t)qf.bases.size();
+    for (auto & b : qf.bases) { l.nats(b.tag); l << (size_t)b.values.size(); for (long i = 0; i < b.values.size(); ++i) l << (double)b.values[i]; }
+}
+
+// cell-by-cell expansion (what the Lean model calls qfRules): only used to feed the `mpfull` line
+static Rules expandQF(const FB::QFunction & qf, const F::Action & A) {
+    Rules r;
+    for (auto & b : qf.bases)
+        for (size_t i = 0; i < (size_t)b.values.size(); ++i)
+            r.push_back({{b.tag, F::toFactorsPartial(b.tag, A, i)}, b.values[(long)i]});
+    return r;
+}
+
+static void run_ve_qf(Maximisers & M, int call, const F::Action & A, const FB::QFunction & qf) {
+    FB::UpdateGraph<FB::VariableElimination>()(M.veGraph, qf, A);
+    auto [a, v] = M.ve(A, M.veGraph);
+    Line l; l << "C13" << "veqf" << call; l.nats(A); putQF(l, qf); l << "|"; l.nats(a) << v; l.emit();
+}
+
+static void run_approx_qf(Maximisers & M, int call, const F::Action & A, const FB::QFunction & qf) {
+    auto & g = *M.lsGraphQF;
+    FB::UpdateGraph<FB::LocalSearch>()(g, qf, A);
+    if (call == 0) put_graph(g, call, A);
+    {
+        auto [a, v] = M.ls(A, g);
+        Line l; l << "C13" << "lsqf" << call; l.nats(A); putQF(l, qf); l << "|"; l.nats(a) << v; l.emit();
+    }
+    {
+        auto [a, v] = M.mp(A, g);
+        Line l; l << "C13" << "mpqf" << call; l.nats(A); putQF(l, qf); l << "|"; l.nats(a) << v; l.emit();
+        Rules rules = expandQF(qf, A);
+        Line m; m << "C13" << "mpfull" << call << (size_t)M.mp.getIterations() << (size_t)g.factorSize();
+        for (auto f = g.begin(); f != g.end(); ++f) m.nats(f->getVariables());
+        m.nats(A); putRules(m, rules); m << "|"; m.nats(a) << v; m.emit();
+    }
+    {
+        auto [a, v] = M.rils(A, g);
+        Line l; l << "C13" << "rilsqf" << call; l.nats(A); putQF(l, qf); l << "|"; l.nats(a) << v; l.emit();
     }
 }
 
@@ -115,7 +174,7 @@ static Rules structureRules(const std::vector<F::PartialKeys> & keysets) {
 
 // ---------------------------------------------------------------- fixed witnesses / regressions (lowest indices)
 
-static const long kFixed = 8;
+static const long kFixed = 10;
 
 static void fixed_case(long idx) {
     Maximisers M(10, 0.3, 0.1, 10, true);
@@ -193,6 +252,26 @@ static void fixed_case(long idx) {
         for (size_t a = 0; a < 2; ++a) for (size_t b = 0; b < 2; ++b) { r.push_back(ue({{1, 2}, {b, a}}, ms[i], ns[i])); ++i; }
         run_ucve(M, 0, A, 8.0, r);
         break; }
+    case 8: { // QFunction overloads: two bases on the SAME tag (accumulate), a single-agent basis on a non-first agent, an agent in no
+        // basis, non-uniform sizes; VE graph reused by a rule call in between; the LS graph reused for a second QFunction
+        F::Action A{2, 3, 2};
+        auto vec = [](std::initializer_list<double> v) { AIToolbox::Vector x(v.size()); long i = 0; for (double d : v) x[i++] = d; return x; };
+        FB::QFunction q1; q1.bases = { {{0, 1}, vec({1, -2, 3, 0, 0.5, -1})}, {{1}, vec({0, 1, -1})}, {{0, 1}, vec({0, 0, 0, 0, 0, 4})} };
+        FB::QFunction q2; q2.bases = { {{0, 1}, vec({-1, -2, -3, -0.25, -0.5, -1})}, {{1}, vec({0, -1, -1})}, {{0, 1}, vec({0, 0, 0, 0, 0, 0})} };
+        Rules r{ {{{0, 1}, {1, 2}}, -1.5}, {{{2}, {1}}, 2.0} };
+        run_ve_qf(M, 0, A, q1); run_ve(M, 1, A, r); run_ve_qf(M, 2, A, q2); run_ve_qf(M, 3, A, q1);
+        M.lsGraphQF.reset(new FB::LocalSearch::Graph(FB::MakeGraph<FB::LocalSearch>()(q1, A)));
+        run_approx_qf(M, 0, A, q1); run_approx_qf(M, 1, A, q2); run_approx_qf(M, 2, A, q1);
+        break; }
+    case 9: { // huge and tiny payoffs together (exact in binary64), one rule over ALL agents, single-agent rules on the last agent
+        F::Action A{3, 1, 4, 2};
+        const double H = 1073741824.0;   // 2^30
+        Rules r{ {{{0, 1, 2, 3}, {2, 0, 3, 1}}, 3 * H + 0.25}, {{{3}, {0}}, -2 * H}, {{{3}, {1}}, 0.5}, {{{0, 2}, {2, 3}}, -3 * H}, {{{0, 2}, {1, 1}}, 0.75 - H},
+                 {{{2}, {3}}, H}, {{{0, 1, 2, 3}, {0, 0, 0, 0}}, -0.25} };
+        run_ve(M, 0, A, r);
+        M.lsGraph.reset(new FB::LocalSearch::Graph(FB::MakeGraph<FB::LocalSearch>()(r, A)));
+        run_approx(M, 0, A, r);
+        break; }
     }
 }
 
@@ -208,8 +287,15 @@ static Shape genShape(Rng & rng, bool thorough) {
     size_t n = rng.coin(1, 12) ? 1 : (size_t)rng.range(2, thorough ? 6 : 5);
     size_t maxA = thorough ? 4 : 3;
     s.A.resize(n);
-    for (auto & a : s.A) a = rng.coin(1, 6) ? 1 : (size_t)rng.range(2, (long)maxA);
-    int mode = (int)rng.below(5);   // 0 random, 1 chain, 2 two groups (disconnected), 3 nested, 4 singletons + one big
+    // sizes: mostly small; one case in five "wide": non-uniform sizes up to 5 (6 thorough) with the joint space capped
+    bool wide = rng.coin(1, 5);
+    for (;;) {
+        for (auto & a : s.A) a = rng.coin(1, 6) ? 1 : (size_t)rng.range(2, (long)(wide ? maxA + 2 : maxA));
+        if (F::factorSpace(s.A) <= (thorough ? 1536u : 640u)) break;
+    }
+    stat(wide ? "sizes:wide_nonuniform" : "sizes:small");
+    { size_t mx = 0; for (auto a : s.A) mx = std::max(mx, a); std::string k = "maxA:" + std::to_string(mx); stat(k.c_str()); }
+    int mode = (int)rng.below(7);   // 0 random, 1 chain, 2 two groups (disconnected), 3 nested, 4 singletons + one big, 5 all agents + small, 6 upper agents only
     size_t nk = (size_t)rng.range(0, 5);
     std::set<F::PartialKeys> seen;
     auto add = [&](F::PartialKeys k) {
@@ -230,9 +316,11 @@ static Shape genShape(Rng & rng, bool thorough) {
         case 2: { if (n < 2) { add({0}); break; } size_t cut = (size_t)rng.range(1, (long)n - 1); if (rng.coin()) add(randomSubset(0, cut, 3)); else add(randomSubset(cut, n, 3)); break; }
         case 3: { if (s.keysets.empty() || rng.coin(1, 3)) add(randomSubset(0, n, 3)); else { auto k = rng.pick(s.keysets); if (k.size() > 1) k.erase(k.begin() + (long)rng.below(k.size())); add(k); } break; }
         case 4: { if (i == 0) add(randomSubset(0, n, 4)); else add({rng.below(n)}); break; }
+        case 5: { if (i == 0) { F::PartialKeys all(n); for (size_t a = 0; a < n; ++a) all[a] = a; add(all); } else add(randomSubset(0, n, 2)); break; }
+        case 6: { size_t lo = n / 2; add(randomSubset(lo, n, 3)); break; }   // agents below n/2 are in no rule; no key set is a prefix
         }
     }
-    static const char * names[] = {"shape:random", "shape:chain", "shape:two_groups", "shape:nested", "shape:singletons"};
+    static const char * names[] = {"shape:random", "shape:chain", "shape:two_groups", "shape:nested", "shape:singletons", "shape:all_agents", "shape:upper_agents_only"};
     stat(names[mode]);
     return s;
 }
@@ -257,10 +345,31 @@ static void random_case(Rng & rng, bool thorough) {
     static const unsigned iters[] = {0, 1, 3, 10};
     Maximisers M(iters[rng.below(4)], rng.coin() ? 0.3 : 0.0, rng.coin() ? 0.1 : 0.5, (unsigned)rng.range(0, 6), rng.coin());
     M.lsGraph.reset(new FB::LocalSearch::Graph(FB::MakeGraph<FB::LocalSearch>()(structureRules(s.keysets), A)));
+    // QFunction overloads: one dense basis per key set (sometimes a second basis on the same tag), same structure in every call
+    bool useQF = !s.keysets.empty() && rng.coin();
+    std::vector<F::PartialKeys> qfTags;
+    if (useQF) {
+        for (auto & k : s.keysets) if (F::factorSpacePartial(k, A) <= 256) { qfTags.push_back(k); if (rng.coin(1, 4)) qfTags.push_back(k); }
+        for (size_t i = qfTags.size(); i > 1; --i) std::swap(qfTags[i - 1], qfTags[rng.below(i)]);
+        useQF = !qfTags.empty();
+    }
+    auto genQF = [&](int regime) {
+        FB::QFunction qf;
+        for (auto & k : qfTags) {
+            AIToolbox::Vector v((long)F::factorSpacePartial(k, A));
+            for (long i = 0; i < v.size(); ++i)
+                v[i] = regime == 0 ? (double)rng.range(0, 16) / 4.0 : regime == 1 ? (double)rng.range(-16, 16) / 4.0
+                     : (rng.coin(1, 3) ? (double)rng.range(-8, 8) * 1073741824.0 : 0.0) + (double)rng.range(-16, 16) / 4.0;
+            qf.bases.push_back({k, std::move(v)});
+        }
+        return qf;
+    };
+    if (useQF) M.lsGraphQF.reset(new FB::LocalSearch::Graph(FB::MakeGraph<FB::LocalSearch>()(genQF(0), A)));
     int calls = (int)rng.range(1, 3);
     stat("agents", (long)A.size()); stat("keysets", (long)s.keysets.size()); stat("calls", calls);
     for (int c = 0; c < calls; ++c) {
         bool positive = rng.coin(1, 4);
+        bool huge = !positive && rng.coin(1, 5);   // signed multiples of 2^30 mixed with quarters: still exact in binary64
         int globalFill = (int)rng.below(4);   // 0 all full, 1 all sparse, 2 mixed, 3 mixed incl. absent key sets
         Rules rules; MORules mrules; URules urules;
         size_t nobj = (size_t)rng.range(2, 3);
@@ -270,6 +379,7 @@ static void random_case(Rng & rng, bool thorough) {
             if (fm == 3) continue;
             for (auto & vals : genEntries(rng, A, k, fm)) {
                 double v = positive ? (double)rng.range(0, 16) / 4.0 : (double)rng.range(-16, 16) / 4.0;
+                if (huge && rng.coin(1, 3)) v += (double)rng.range(-8, 8) * 1073741824.0;
                 rules.push_back({{k, vals}, v});
                 FB::MOQFunctionRule mr; mr.action = {k, vals}; mr.values.resize((long)nobj);
                 for (size_t o = 0; o < nobj; ++o) mr.values[(long)o] = positive ? (double)rng.range(0, 12) / 4.0 : (double)rng.range(-12, 12) / 4.0;
@@ -284,9 +394,17 @@ static void random_case(Rng & rng, bool thorough) {
             size_t j = rng.below(i);
             std::swap(rules[i - 1], rules[j]); std::swap(mrules[i - 1], mrules[j]); std::swap(urules[i - 1], urules[j]);
         }
-        stat(positive ? "values:nonneg" : "values:signed"); stat("rules", (long)rules.size());
+        stat(positive ? "values:nonneg" : huge ? "values:signed_huge_mixed" : "values:signed"); stat("rules", (long)rules.size());
+        { size_t single = 0, allag = 0; for (auto & r : rules) { single += r.action.first.size() == 1; allag += r.action.first.size() == A.size() && A.size() > 1; }
+          stat("rules:single_agent", (long)single); stat("rules:all_agents", (long)allag); }
+        // VE graph object shared by the rule overload and the QFunction overload (reset + pool reuse in between)
+        bool qfFirst = useQF && rng.coin();
+        FB::QFunction qf; if (useQF) { qf = genQF(positive ? 0 : huge ? 2 : 1); stat("qf_calls"); stat("qf_bases", (long)qf.bases.size()); }
+        if (qfFirst) run_ve_qf(M, c, A, qf);
         run_ve(M, c, A, rules);
+        if (useQF && !qfFirst) run_ve_qf(M, c, A, qf);
         run_approx(M, c, A, rules);
+        if (useQF) run_approx_qf(M, c, A, qf);
         if (!mrules.empty()) run_move(M, c, A, nobj, mrules);
         static const double logs[] = {1.0, 2.0, 4.0, 8.0, 12.5};
         run_ucve(M, c, A, logs[rng.below(5)], urules);
